@@ -516,10 +516,14 @@ Definition parseCommand (command : yv) (cur : string * string * list string) : r
   end.
 
 (* ---- builder.go:550 parseExecutor, :697 convertMap --------------------------------------------------- *)
-(* convertMap: breadth-first over maps reached through maps only; every such map must have string keys *)
+(* convertMap / convertValue (fix 667fb54): every mapping inside the executor config - also those inside lists -
+   is converted to map[string]any, which asks for string keys; NaN and infinity are refused.  (Before the fix
+   only maps reached through maps were converted and floats were not looked at.) *)
 Fixpoint conv_ok (v : yv) : bool :=
   match v with
   | VMap m => forallb (fun kv => is_vstr (fst kv) && conv_ok (snd kv)) m
+  | VList l => forallb conv_ok l
+  | VFloat k _ _ => is_fin k
   | _ => true
   end.
 
@@ -725,19 +729,13 @@ Fixpoint evalConditions (cs : list condition) : M bool :=
 End Loader.
 
 (* ---- status.go / node.go: is the status of an accepted DAG serialisable? ----------------------------- *)
-(* json.Marshal fails on map[interface{}]interface{} (whatever it holds) and on NaN / Inf.  convertMap
-   turned maps reached through maps into map[string]interface{}; maps inside lists stay as yaml.v2 made them. *)
-Fixpoint json_raw (v : yv) : bool :=
-  match v with
-  | VMap _ => false
-  | VList l => forallb json_raw l
-  | VFloat k _ _ => is_fin k
-  | _ => true
-  end.
+(* json.Marshal fails on map[interface{}]interface{} (whatever it holds) and on NaN / Inf.  The executor config
+   a step stores went through convertValue (fix 667fb54): every mapping in it, at any depth, is a
+   map[string]interface{}.  What can still stop the encoder is a non-finite float. *)
 Fixpoint json_conv (v : yv) : bool :=
   match v with
   | VMap m => forallb (fun kv => json_conv (snd kv)) m
-  | VList l => forallb json_raw l
+  | VList l => forallb json_conv l
   | VFloat k _ _ => is_fin k
   | _ => true
   end.
